@@ -440,3 +440,56 @@ theorem C18_freq_roundtrip (F : Rat) (h1 : -(1 / 2000) ≤ F) (h2 : F ≤ 1 / 20
       exact ⟨a, c, by grind⟩
 
 end ScionTime.C18
+
+namespace ScionTime.C18
+open ScionTime.F64 ScionTime.FreqDrift
+
+/-- The same in terms of the constructor argument: a clock created with
+    `NewSystemClock(log, dr)` for a drift of `1 ns/s ≤ dr ≤ 1 s/s` allows, over an interval
+    `0 < d < 2^61` ns, `d·dr/10^9` ns up to truncation and a relative error of `2^-49`. -/
+theorem C18_drift_of_clock (dr d : Int) (hdr1 : 1 ≤ dr) (hdr2 : dr ≤ 1000000000)
+    (hd : 0 < d) (hd2 : d < 2305843009213693952) :
+    ((drift (clockDrift dr) d : Int) : Rat) ≤
+        (d : Rat) * dr / 1000000000 + (d : Rat) * dr / 1000000000 / 562949953421312 ∧
+    (d : Rat) * dr / 1000000000 - (d : Rat) * dr / 1000000000 / 562949953421312 - 1 <
+        ((drift (clockDrift dr) d : Int) : Rat) := by
+  obtain ⟨s, hs, s0, s1, s2⟩ := durationSeconds_pos dr (by omega) (by omega)
+  have hDR1 : (1 : Rat) ≤ (dr : Rat) := by simpa using Rat.intCast_le_intCast.mpr hdr1
+  have hDR2 : (dr : Rat) ≤ 1000000000 := by simpa using Rat.intCast_le_intCast.mpr hdr2
+  have hD1 : (1 : Rat) ≤ (d : Rat) := by simpa using Rat.intCast_le_intCast.mpr (show 1 ≤ d by omega)
+  have hD2 : (d : Rat) ≤ 2305843009213693952 := by
+    simpa using Rat.intCast_le_intCast.mpr (show d ≤ 2305843009213693952 by omega)
+  have hD0 : (0 : Rat) ≤ (d : Rat) := by grind
+  unfold clockDrift
+  rw [hs]
+  -- s is within [2^-30, 1024] and d·s ≤ 2^62
+  have hs_lo : 1 / 1073741824 ≤ s := by grind
+  have hs_hi : s ≤ 1024 := by grind
+  have hs_le : s ≤ 2 := by grind
+  have hE : (d : Rat) * s ≤ 4611686018427387904 := by
+    have := Rat.mul_le_mul_of_nonneg_left hs_le hD0
+    grind
+  obtain ⟨t1, t2⟩ := C18_drift_proportional s d hd (by omega) hs_lo hs_hi hE
+  -- d·s versus d·dr/10^9
+  have k1 := Rat.mul_le_mul_of_nonneg_left s1 hD0
+  have k2 := Rat.mul_le_mul_of_nonneg_left s2 hD0
+  have e1 : (d : Rat) * ((s * 1000000000 - (dr : Rat)) * 9007199254740992)
+      = ((d : Rat) * s * 1000000000 - (d : Rat) * dr) * 9007199254740992 := by grind
+  have e2 : (d : Rat) * (((dr : Rat) - s * 1000000000) * 9007199254740992)
+      = ((d : Rat) * dr - (d : Rat) * s * 1000000000) * 9007199254740992 := by grind
+  have e3 : (d : Rat) * (3 * (dr : Rat)) = 3 * ((d : Rat) * dr) := by grind
+  rw [e1, e3] at k1
+  rw [e2, e3] at k2
+  have hpos : 0 ≤ (d : Rat) * dr := by
+    have := Rat.mul_le_mul_of_nonneg_left (show (0 : Rat) ≤ (dr : Rat) by grind) hD0
+    grind
+  generalize ((drift (.fin s) d : Int) : Rat) = T at *
+  generalize (d : Rat) * s = DS at *
+  generalize (d : Rat) * dr = DD at *
+  constructor <;> grind
+
+/-- e.g. `NewSystemClock(log, 10*time.Microsecond)` (10 ppm) over 64 s. -/
+example : (1 : Int) ≤ 10000 ∧ (10000 : Int) ≤ 1000000000 ∧ (0 : Int) < 64000000000 ∧
+    (64000000000 : Int) < 2305843009213693952 := by decide
+
+end ScionTime.C18
